@@ -98,7 +98,7 @@ class RegistryDriver:
         recs = list(self.foreign) + list(self.seeds) + [{"p": 0, "f": {t: (1 if t == b else 0) for t in self.U.tokens}} for b in self.U.tokens]
         for rec in recs:
             u = self._build(rec)
-            for kind in (0, 1, 2, 3):
+            for kind in (0, 1, 2, 3, 4):
                 val = u if kind == 0 else self._mag(kind) * u
                 for codec in ("pickle", "json"):
                     try:
@@ -109,7 +109,7 @@ class RegistryDriver:
 
     def _mag(self, kind):
         from decimal import Decimal
-        return {1: 5, 2: 5.0, 3: Decimal("5.0")}[kind]
+        return {1: 5, 2: 5.0, 3: Decimal("5.0"), 4: 2 ** 60 + 1}[kind]
 
     def fresh_ctx(self):
         obj = {self.U.nf(self.m.One): self.m.One}
@@ -382,13 +382,13 @@ class _DumpFailed(Exception):
     pass
 
 
-_KINDS = {0: "unit", 1: "int", 2: "float", 3: "Decimal"}
+_KINDS = {0: "unit", 1: "int", 2: "float", 3: "Decimal", 4: "bigint"}
 
 
 # ------------------------------------------------------------------------------ checks
 
 def tlc_registry(label, depth, ops="", shipped="", universe=1, export=True, simulate=None, seed=None,
-                 timeout=3000, seeds=0, foreign=1, kinds=4):
+                 timeout=3000, seeds=0, foreign=1, kinds=5):
     env = {"VERIF_DEPTH": depth, "VERIF_UNIVERSE": universe, "VERIF_SEEDS": seeds, "VERIF_FOREIGN": foreign,
            "VERIF_KINDS": kinds}
     if ops:
@@ -570,7 +570,8 @@ def _registry_walk(seed):
         if after != names:
             out["bad"].append(["walk:%s:names-changed" % kind, "%r" % (o,)])
         if kind == "unit":
-            for mag in (7, 2.5, Decimal("1.25"), Decimal("1.2345678901234567890123456789012345"), Decimal("1E+3"), float("inf"), float("-inf")):
+            for mag in (7, 2.5, Decimal("1.25"), Decimal("1.2345678901234567890123456789012345"), Decimal("1E+3"), float("inf"), float("-inf"),
+                        2 ** 53 + 1, -(10 ** 20), 5e-324, 1.7976931348623157e308):
                 q = measured.Quantity(mag, o)
                 for codec, f in (("pickle", lambda x: pickle.loads(pickle.dumps(x))), ("copy", copy.copy), ("deepcopy", copy.deepcopy),
                                  ("json", lambda x: json.loads(json.dumps(x, cls=MeasuredJSONEncoder), cls=MeasuredJSONDecoder))):
